@@ -595,4 +595,151 @@ Section RefineTxn.
           repeat split; auto. lia.
   Qed.
 
+  (* ---------------------------------------------------------------- *)
+  (* Replace (with the upsert fall-back) *)
+
+  Definition s_repl_core (s : sstate) (h : handle) (q repl : doc) (sort : option doc)
+             (upsert : bool) : sstate * (sresult + ekind) :=
+    let c := coll_or_new s h in
+    match s_replace matchf c q repl sort with
+    | inr e => (s, inr e)
+    | inl (c', sr) =>
+        match sr_matched sr, upsert with
+        | [], true =>
+            let used := if upsert_generates applyf extractf q (Some repl) None [] now then 1 else 0 in
+            match s_upsert matchf applyf extractf now c' q (Some repl) None [] (gen_oid (ss_oid s)) with
+            | inl (c'', sr') => (mkS (sc_set (ss_colls s) h c'') (ss_oid s + used), inl sr')
+            | inr e => (mkS (ss_colls s) (ss_oid s + used), inr e)
+            end
+        | _, _ =>
+            match sr_modified sr with
+            | [] => (s, inl sr)
+            | _ => (mkS (sc_set (ss_colls s) h c') (ss_oid s), inl sr)
+            end
+        end
+    end.
+
+  Lemma s_replace_or_upsert_eq s h q repl sort upsert :
+    s_replace_or_upsert matchf applyf extractf now s h q repl sort upsert =
+    if negb (s_valid h) then (s, inr EErr)
+    else match sc_get (ss_colls s) h with
+         | None => if upsert then s_repl_core s h q repl sort upsert else (s, inl sr_empty)
+         | Some _ => s_repl_core s h q repl sort upsert
+         end.
+  Proof.
+    unfold s_replace_or_upsert, s_repl_core. destruct (negb (s_valid h)); [reflexivity|].
+    destruct (sc_get (ss_colls s) h); destruct upsert; reflexivity.
+  Qed.
+
+  Lemma repl_core_sim c g h q repl sort upsert :
+    ns_ok (g_did g) (cat_ns c) -> user_ns h = true ->
+    txn_rel tres_rel g
+      (finish c g h changed_mod
+         (t_replace matchf applyf extractf (open_w c g h) h q repl sort upsert now))
+      (s_repl_core (abs_cat c g) h q repl sort upsert).
+  Proof.
+    intros Hok Hu. unfold s_repl_core, t_replace, abs_cat.
+    rewrite (coll_or_new_abs c (g_oid g) h Hu).
+    cbn [open_w w_ns w_gen w_oplog w_clock ss_colls ss_oid].
+    destruct (ns_or_new_good matchf _ c h Hok Hu) as [Hinv [Hid Hlt]].
+    set (n0 := ns_or_new c h) in *.
+    pose proof (sim_replace matchf n0 (g_did g) q repl sort Hinv Hlt) as Hsim.
+    pose proof (s_replace_no_upsert (abs_coll n0) q repl sort) as Hnoup.
+    destruct (coll_replace matchf n0 (g_did g) q repl sort) as [ns' [r|e]] eqn:Hcu;
+      destruct (s_replace matchf (abs_coll n0) q repl sort) as [[sc' sr]|e'];
+      cbn [out_rel] in Hsim; try contradiction.
+    - destruct Hsim as [Habs [Hm [Hmd Hup]]]. specialize (Hnoup sc' sr eq_refl).
+      destruct (coll_replace_inv matchf _ _ _ _ _ _ _ Hinv Hid Hlt Hcu) as [Hinv' [Hid' Hlt']].
+      destruct (r_matched r) as [|m0 mr] eqn:Hrm.
+      + (* nothing matched *)
+        rewrite <- Hm. cbn [map]. cbn [g_did g_oid].
+        assert (Hr : r = empty_result).
+        { apply (coll_replace_inl matchf) in Hcu.
+          destruct Hcu as [[_ [_ Hr]]|[old [rest [repl' [ixs [_ [_ [_ [_ Hmm]]]]]]]]].
+          - exact Hr.
+          - rewrite Hmm in Hrm. discriminate. }
+        destruct upsert.
+        * subst sc'.
+          pose proof (sim_upsert matchf applyf extractf ns' (g_did g + 1) q (Some repl) None []
+                       (gen_oid (g_oid g)) now Hinv' Hlt') as Hs2.
+          destruct (coll_upsert matchf applyf extractf ns' (g_did g + 1) q (Some repl) None []
+                      (gen_oid (g_oid g)) now) as [ns'' [r2|e2]] eqn:Hcup;
+            destruct (s_upsert matchf applyf extractf now (abs_coll ns') q (Some repl) None []
+                        (gen_oid (g_oid g))) as [[sc'' sr']|e2'];
+            cbn [out_rel] in Hs2; try contradiction.
+          -- destruct Hs2 as [Habs2 Hrel2].
+             destruct (coll_upsert_inv matchf applyf extractf _ _ _ _ _ _ _ _ _ _ Hinv' Hid' Hlt' Hcup)
+               as [Hinv2 [Hid2 Hlt2]].
+             destruct (coll_upsert_docs matchf applyf extractf _ _ _ _ _ _ _ _ _ _ Hcup)
+               as [d' [_ [_ Hr2]]]. subst r2. cbn [r_upserted].
+             match goal with |- context [append_all ?w1 h ?op ?l ?chs] =>
+               destruct (append_all_facts h op l w1 chs) as [F1 [F2 F3]];
+               set (wa := append_all w1 h op l chs) in * end.
+             cbn [w_ns w_gen g_oid g_did] in F1, F2, F3. clearbody wa.
+             unfold finish. rewrite changed_mod_ups.
+             unfold txn_rel. cbn [ss_colls ss_oid sum_rel].
+             split; [|split; [|split; [|split]]].
+             ++ rewrite (close_w_abs c h wa Hu), F1, Habs2. reflexivity.
+             ++ rewrite F2. reflexivity.
+             ++ destruct Hrel2 as [R1 [R2 R3]]. split; [|split]; assumption.
+             ++ apply close_w_ok; [eapply ns_ok_mono; [exact Hok|lia]|].
+                rewrite F1. apply (good_mono matchf (g_did g + 1 + 1)); [|lia]. split; [|split]; auto.
+             ++ lia.
+          -- subst e2'. unfold finish, gen_after_fail, txn_rel.
+             cbn [w_gen ss_colls ss_oid sum_rel g_did g_oid]. repeat split; auto.
+             ++ eapply ns_ok_mono; [exact Hok|lia].
+             ++ lia.
+        * subst r. cbn [r_modified r_upserted map option_map] in *. rewrite <- Hmd.
+          unfold finish. rewrite changed_mod_nil.
+          unfold txn_rel. cbn [w_gen ss_colls ss_oid sum_rel g_did g_oid].
+          repeat split; auto.
+          -- eapply ns_ok_mono; [exact Hok|lia].
+          -- lia.
+      + (* a document was replaced *)
+        rewrite <- Hm. cbn [map].
+        match goal with |- context [append_all ?w1 h ?op ?l ?chs] =>
+          destruct (append_all_facts h op l w1 chs) as [F1 [F2 F3]];
+          set (wa := append_all w1 h op l chs) in * end.
+        cbn [w_ns w_gen g_oid g_did] in F1, F2, F3.
+        assert (Htr : tres_rel (mkT (m0 :: mr) (r_modified r) None None) sr).
+        { split; [|split]; cbn [t_matched t_modified t_upserted option_map]; auto. }
+        unfold finish.
+        destruct (r_modified r) as [|x xs] eqn:Hrmod.
+        * rewrite changed_mod_nil. rewrite <- Hmd. cbn [map].
+          unfold wa. cbn [firstn append_all w_gen].
+          unfold txn_rel. cbn [ss_colls ss_oid sum_rel g_did g_oid].
+          split; [|split; [|split; [|split]]]; auto.
+          -- eapply ns_ok_mono; [exact Hok|lia].
+          -- lia.
+        * rewrite changed_mod_cons. rewrite <- Hmd. cbn [map]. clearbody wa.
+          unfold txn_rel. cbn [ss_colls ss_oid sum_rel].
+          split; [|split; [|split; [|split]]]; auto.
+          -- rewrite (close_w_abs c h wa Hu), F1, Habs. reflexivity.
+          -- apply close_w_ok; [eapply ns_ok_mono; [exact Hok|lia]|].
+             rewrite F1. apply (good_mono matchf (g_did g + 1)); [|lia]. split; [|split]; auto.
+          -- lia.
+    - subst e'. unfold finish, gen_after_fail, txn_rel.
+      cbn [w_gen ss_colls ss_oid sum_rel]. repeat split; auto. lia.
+  Qed.
+
+  Theorem txn_replace_refines c g h q sort repl upsert :
+    ns_ok (g_did g) (cat_ns c) ->
+    txn_rel tres_rel g (txn_replace matchf applyf extractf c g h q sort repl upsert now)
+            (s_replace_or_upsert matchf applyf extractf now (abs_cat c g) h q repl sort upsert).
+  Proof.
+    intro Hok. unfold txn_replace. rewrite s_replace_or_upsert_eq.
+    destruct (guard_write h) as [e|] eqn:Hg.
+    - destruct (guard_some h e Hg) as [-> Hv]. rewrite Hv. cbn [negb].
+      unfold txn_rel, abs_cat. cbn [ss_colls ss_oid sum_rel]. repeat split; auto. lia.
+    - pose proof (proj1 (guard_valid h) Hg) as Hv. rewrite Hv. cbn [negb].
+      pose proof (valid_user h Hv) as Hu.
+      unfold abs_cat at 1. cbn [ss_colls]. rewrite (sc_get_abs _ _ Hu).
+      destruct (ns_get (cat_ns c) h) as [n|]; cbn [option_map].
+      + apply repl_core_sim; auto.
+      + destruct upsert.
+        * apply repl_core_sim; auto.
+        * unfold txn_rel, abs_cat. cbn [ss_colls ss_oid sum_rel].
+          repeat split; auto. lia.
+  Qed.
+
 End RefineTxn.
